@@ -12,23 +12,23 @@ SPEC = {
         "(accepted => all rules hold); own median-time-past over an own header tree",
     ],
     "stages": [
-        gen("vh_c07", "c07_compact", 900000, 14000000, min_cases_quick=100000,
+        gen("vh_c07", "c07_compact", 900000, 14000000, max_seconds_quick=600, min_cases_quick=20000,
             floors={"negative": 0.05, "overflow": 0.05, "valid-target": 0.1, "hash-at-target+-1": 0.05, "target-at-limit+-1": 0.03, "pow-accepted": 0.05},
             rule="nBits/powLimit/hash near every boundary vs cpp_int reference; non-trivial = negative | overflow-border exponent | exp<=3 | hash at target+-1 | target at limit+-1"),
         enum("vh_c07", "c07_lattice", rule="exhaustive: 256 exponents x sign x 4096-mantissa lattice = 2,097,152 nBits, each vs reference (decode, encode, DeriveTarget x3 limits, PoW at target/target+1)"),
-        gen("vh_c07", "c07_retarget", 700000, 10000000, min_cases_quick=80000,
+        gen("vh_c07", "c07_retarget", 700000, 10000000, max_seconds_quick=600, min_cases_quick=20000,
             floors={"span-clamped": 0.1, "span-at-clamp-bound+-1": 0.05, "limited-by-powlimit": 0.02, "bip94-first!=last": 0.01,
                     "min-difficulty-time-boundary": 0.03, "min-difficulty-walk-back": 0.005, "difficulty-changed": 0.1},
             rule="GetNextWorkRequired/CalculateNextWorkRequired == reference on all built-in chains; required is a permitted transition"),
-        gen("vh_c07", "c07_permitted", 600000, 9000000, min_cases_quick=80000,
+        gen("vh_c07", "c07_permitted", 600000, 9000000, max_seconds_quick=600, min_cases_quick=20000,
             floors={"retarget-height-biting": 0.15, "new-at-window-bound+-1": 0.05, "refused-at-retarget": 0.03, "permitted": 0.2},
             rule="PermittedDifficultyTransition == cpp_int window reference; non-trivial = new target within one mantissa unit of a window bound at a biting retarget height"),
-        gen("vh_c07", "c07_headers", 1200, 20000, min_cases_quick=300,
+        gen("vh_c07", "c07_headers", 600, 12000, max_seconds_quick=600, min_cases_quick=60,
             floors={"accepted": 0.5, "refused:time-too-old": 0.2, "refused:time-too-new": 0.1, "refused:bad-diffbits": 0.15, "refused:high-hash": 0.15,
                     "accepted-at-mtp+1": 0.1, "accepted-at-now+2h": 0.1, "time==mtp": 0.15, "time==now+2h+1": 0.1},
             rule="regtest node: headers at the MTP / now+2h / nBits / PoW boundaries through ProcessNewBlockHeaders; every accepted header satisfies the own reference of the rules"),
-        gen("vh_c07", "up_pow", 60000, 1000000, rule="upstream fuzz target pow (asserts + sanitizers), supplementary"),
-        gen("vh_c07", "up_pow_transition", 20000, 300000, rule="upstream fuzz target pow_transition (required => permitted on mainnet), supplementary"),
+        gen("vh_c07", "up_pow", 60000, 1000000, max_seconds_quick=600, rule="upstream fuzz target pow (asserts + sanitizers), supplementary"),
+        gen("vh_c07", "up_pow_transition", 20000, 300000, max_seconds_quick=600, rule="upstream fuzz target pow_transition (required => permitted on mainnet), supplementary"),
     ],
 }
 
